@@ -82,7 +82,8 @@ pub struct Raw {
 
 const MACRO_NAMES: [&str; 10] = ["m", "mm", "m1", "ma", "mac_", "_m", "M", "m_a", "am", "a_m"];
 // x1, x2, b1, b10, xA, XF: names that are the tail of a hex / binary literal (0x1, 0b10, 0XF): a literal in the body is one word, not a use of the parameter
-const PARAM_NAMES: [&str; 26] = ["a", "ab", "a1", "_a", "x", "x1", "x2", "ax1", "b", "b1", "b10", "ba", "q", "qq", "d", "ad", "dd", "mo", "v", "v_", "k", "i", "al1", "xA", "XF", "_"];
+// ptr ... dup: plausible parameter names that are keywords in other assemblers (and may become keywords here)
+const PARAM_NAMES: [&str; 42] = ["a", "ab", "a1", "_a", "x", "x1", "x2", "ax1", "b", "b1", "b10", "ba", "q", "qq", "d", "ad", "dd", "mo", "v", "v_", "k", "i", "al1", "xA", "XF", "ptr", "src", "dst", "len", "cnt", "val", "tmp", "n", "lo", "hi", "near", "far", "short", "dup", "PTR", "to", "_"];
 
 struct Sel<'a> {
     b: &'a [u8],
@@ -437,6 +438,24 @@ pub fn build(raw: &Raw) -> Case13 {
     }
     if with_proc && s.next() & 1 == 0 {
         code.push(CItem::Ins("call p_0".into()));
+    }
+    // a macro defined a second time (same name and parameters, one more instruction in the body) after it was used,
+    // then the same use again: the later definition must be the one that is expanded
+    let mut macros = macros;
+    if n > 0 && raw.mode == 0 && s.next() % 4 == 0 {
+        let last_use = code.iter().rev().find_map(|c| match c {
+            CItem::Use(u) if u.name != "nosuch" => Some(u.clone()),
+            _ => None,
+        });
+        if let Some(u) = last_use {
+            if let Some(mi) = macros.iter().rposition(|m| m.name == u.name) {
+                let mut m2 = macros[mi].clone();
+                m2.body.push(BItem::Ins(vec![Piece::Lit(["stc", "add bp,3", "mov word [6],9"][s.pick(3)].to_string())]));
+                macros.push(m2);
+                code.push(CItem::Def(macros.len() - 1));
+                code.push(CItem::Use(u));
+            }
+        }
     }
     code.push(CItem::Label("t_1".into()));
     code.push(CItem::Ins("hlt".into()));
